@@ -12,6 +12,7 @@ accepts it (wf_sheet) the sheet must render to the very text, and the callbacks 
 (`events`, the right-hand side of css_scan_render) must equal both the generator's record and what
 emmet.css_matcher.scan reports.  The share of generated sheets inside the proved grammar is
 written into the evidence."""
+import collections
 import json
 import os
 
@@ -300,8 +301,10 @@ def call_sequences(ctx, docs):
                 pp = rng.randint(0, len(poison))
                 for f in ('match', 'outward', 'inward'):
                     U.IMPL[f](poison, pp)
+                    CALL_LOG.append((f, poison, pp))
                 hist.append([poison, pp])
             got = {f: U.IMPL[f](text, pos) for f in ('match', 'outward', 'inward')}
+            CALL_LOG.extend((f, text, pos) for f in ('match', 'outward', 'inward'))
             hist.append([text, pos])
             n += 1
             ctx.count_eval()
@@ -348,7 +351,15 @@ def _raw_call(f, text, pos):
         return ('internal', U._kind(e))
 
 
-raw_call = common.limited(_raw_call)
+_raw_limited = common.limited(_raw_call)
+# the calls made in this process, most recent last (call_sequences and the scripts below): a failure inside a script may
+# be due to what an EARLIER call left behind in the library, so the replay carries the calls that preceded the script
+CALL_LOG = collections.deque(maxlen=120)
+
+
+def raw_call(f, text, pos):
+    CALL_LOG.append((f, text, pos))
+    return _raw_limited(f, text, pos)
 
 
 def canon(f, raw):
@@ -510,6 +521,24 @@ def owned_script(rng, text, pos, f, cover):
     return steps
 
 
+def pack_calls(calls):
+    texts = []
+    for _, t, _ in calls:
+        if t not in texts:
+            texts.append(t)
+    return {'texts': texts, 'calls': [[f, texts.index(t), p] for f, t, p in calls]}
+
+
+def replay_owned(text, items, steps, calls_before):
+    """the script alone; when the property holds on it, the recorded earlier calls and then the script"""
+    bad = run_owned_script(text, items, steps)
+    if bad or not calls_before or not calls_before.get('calls'):
+        return bad, False
+    for f, ti, p in calls_before['calls']:
+        raw_call(f, calls_before['texts'][ti], p)
+    return run_owned_script(text, items, steps), True
+
+
 def caller_owned_answers(ctx, docs, per_sheet):
     rng = ctx.rng
     n = bad_n = 0
@@ -519,6 +548,7 @@ def caller_owned_answers(ctx, docs, per_sheet):
         for pos in ps[:per_sheet]:
             for f in FUNCS:
                 steps = owned_script(rng, text, pos, f, ctx.cover)
+                before = list(CALL_LOG)
                 n += 1
                 ctx.count_eval()
                 ctx.cover('owned:scripts')
@@ -531,10 +561,12 @@ def caller_owned_answers(ctx, docs, per_sheet):
                         'css %s on %s, %s after the caller used/kept earlier answers (step %d of the script): %s' % (
                             g, U.short(text), kind, k, why),
                         {'component': 'css', 'check': 'c10-owned', 'text': text, 'items': items, 'pos': p, 'func': g,
-                         'why': why, 'steps': steps[:k + 1],
+                         'why': why, 'steps': steps, 'failed_at_step': k, 'calls_before': pack_calls(before),
                          'note': 'steps: ask = call func(text, pos) (copy: with an equal string built separately) and keep '
                                  'the raw answer in the slot; use = the caller edits the answer of that slot in place; '
-                                 'reread = read the kept answer of that slot again'})
+                                 'reread = read the kept answer of that slot again; calls_before = the calls made in the '
+                                 'process before the script (the replay runs the script alone and, when that passes, '
+                                 'these calls and then the script)'})
                     if bad_n >= 5:
                         break
             if bad_n >= 5:
@@ -676,8 +708,9 @@ def replay(ctx, obj):
         print('after the recorded call history, position %d of %r: %s' % (rp['pos'], text, bad[0][1] if bad else 'property holds'))
         return 1 if bad else 0
     if rp.get('check') == 'c10-owned':
-        bad = run_owned_script(text, rp['items'], rp['steps'])
-        print('sheet %r, script of %d steps: %s' % (text, len(rp['steps']),
+        bad, with_history = replay_owned(text, rp['items'], rp['steps'], rp.get('calls_before'))
+        print('sheet %r, script of %d steps%s: %s' % (text, len(rp['steps']),
+                                                    ' after the recorded earlier calls' if with_history else '',
                                                     'step %d (%s): %s' % (bad[0], bad[4], bad[3]) if bad else 'property holds at every step'))
         return 1 if bad else 0
     im = U.impl_doc(text, FUNCS)
